@@ -521,7 +521,7 @@ class Interp:
                 m = self.class_members(c)
                 if name in m:
                     v = m[name]
-                    if isinstance(v, tuple) and v[0] == "expr":
+                    if isinstance(v, tuple) and len(v) == 2 and v[0] == "expr" and isinstance(v[1], ast.AST):
                         v = self.eval_class_const(c, name, v[1])
                         m[name] = v
                     return v, c
@@ -539,7 +539,7 @@ class Interp:
         for k, v in self.class_members(cls).items():
             if k == name:
                 break
-            if not (isinstance(v, tuple) and v and v[0] == "expr"):
+            if not (isinstance(v, tuple) and len(v) == 2 and v[0] == "expr" and isinstance(v[1], ast.AST)):
                 fr.vars[k] = v
         try:
             outs = list(self.ev(expr, st))
